@@ -286,18 +286,28 @@ def variable_section(ctx):
                 "info": {"familyName": "Fam", "styleName": "M%d" % k, "unitsPerEm": 1000, "ascender": 800, "descender": -200}}
         agree = [(0, 1), (0, 2), (1, 2)][i % 3]
         masters = [master(k, agree) for k in range(3)]
+        # one family in three: a quantisation step of 5 and coordinates off the grid (each master's coordinate is rounded to the step)
+        quant = 5 if i % 3 == 2 else 1
+        if quant != 1:
+            for k, m in enumerate(masters):
+                for g in m["glyphs"]:
+                    g["anchors"] = [(a[0], a[1] + [3, 2, -2][k], a[2] - [1, 3, 2][k]) for a in g["anchors"]]
         fn = ["compileVariableTTF", "compileVariableCFF2"][(i // 3) % 2]
         vfeat = i % 2 == 0 or i < 3
         # an axis <map> that is not the identity: the middle master sits at design 500, which is USER 400 (what fvar and
         # the instancer speak); every third family, always one with variable features
         mapped = i % 3 == 1
         case = {"function": fn, "variableFeatures": vfeat, "lib": lib, "masters_agreeing_on_the_varied_coordinates": list(agree),
-                "axis_map": [(100, 100), (400, 500), (900, 900)] if mapped else None, "masters": [jsonable(m) for m in masters]}
-        ctx.count(); ctx.klass("variable marks: masters %s agree/%s/vfeat=%s%s" % (agree, fn, vfeat, "/axis map" if mapped else "")); ctx.nontriv(("vm", i, ctx.scale))
+                "axis_map": [(100, 100), (400, 500), (900, 900)] if mapped else None, "quantization": quant, "masters": [jsonable(m) for m in masters]}
+        ctx.count(); ctx.klass("variable marks: masters %s agree/%s/vfeat=%s%s%s" % (agree, fn, vfeat, "/axis map" if mapped else "", "/quantization 5" if quant != 1 else "")); ctx.nontriv(("vm", i, ctx.scale))
         try:
             ds, fonts = dsgen.make_designspace(rng, masters, lib, instances=False)
             if mapped:
                 ds.axes[0].map = [(100, 100), (400, 500), (900, 900)]
+            if quant != 1:
+                # (the writers of a variable build are chosen by the default source's lib key, stated on every source)
+                for f in fonts:
+                    f.lib["com.github.googlei18n.ufo2ft.featureWriters"] = [{"class": "GdefFeatureWriter"}, {"class": "MarkFeatureWriter", "options": {"quantization": quant}}]
             vf = getattr(ufo2ft, fn)(ds, variableFeatures=vfeat, useProductionNames=False)
             b = io.BytesIO(); vf.save(b)
         except Exception as e:
@@ -312,7 +322,8 @@ def variable_section(ctx):
             for base, banchor, mark, manchor, comp in (("a", "top", "acutecomb", "_top", None), ("a", "bottom", "dotbelowcomb", "_bottom", None),
                                                        ("f_i", "top_1", "acutecomb", "_top", 0), ("f_i", "top_2", "acutecomb", "_top", 1),
                                                        ("acutecomb", "top", "acutecomb", "_top", None)):
-                want = (int(by[base][banchor][0] - by[mark][manchor][0]), int(by[base][banchor][1] - by[mark][manchor][1]))
+                qz = lambda v: quant * geom.ot_round(Fr(v) / quant)
+                want = (int(qz(by[base][banchor][0]) - qz(by[mark][manchor][0])), int(qz(by[base][banchor][1]) - qz(by[mark][manchor][1])))
                 got = lay.mark_attach(lk, base, mark, comp)
                 if got is None or tuple(got[:2]) != want:
                     ctx.spec_failure(dict(case, master=k, base=base, mark=mark, component=comp),
